@@ -5,7 +5,8 @@
      M <base> <src> <src> ...      merge scenario: R <du_all> H <heap merged> S <src after>... T <target reaches a source object 0|1>
      P <builtin> op op ...         process scenario; ops: new | file <i> <cv> | ovr <i> <key> <cv> | ovrnone <i> <key>
                                    | lang <i> <key> | langnone <i> | create <i>
-                                   output: for each create  C <i> <sections|ERR> <options|ERR> ; finally F <sections of every builder|ERR>...
+                                   output: for each create  C <i> <sections|ERR> <options|ERR> ; then F <sections of every builder|ERR> ; ...
+                                           then X <what every context reports now> ; ...
      C <builtin> <nfiles> <file>... <argname> <atom> ...    CLI scenario through the translated cli_ops: C 0 <sections|ERR> <options|ERR> *)
 open Model
 
@@ -78,26 +79,29 @@ let handle line =
       let rec go p toks =
         match toks with
         | [] -> p
-        | "new" :: r -> go (papply builtin p PNew) r
-        | "file" :: i :: r -> let (v, r') = parse_cv r in go (papply builtin p (POp (nat_of_int (int_of_string i), AddFile v))) r'
+        | "new" :: r -> go (papply create_detaches_config builtin p PNew) r
+        | "file" :: i :: r -> let (v, r') = parse_cv r in go (papply create_detaches_config builtin p (POp (nat_of_int (int_of_string i), AddFile v))) r'
         | "ovr" :: i :: k :: r -> let (v, r') = parse_cv r in
-            go (papply builtin p (POp (nat_of_int (int_of_string i), SetOverride (parse_str k, Some v)))) r'
-        | "ovrnone" :: i :: k :: r -> go (papply builtin p (POp (nat_of_int (int_of_string i), SetOverride (parse_str k, None)))) r
-        | "lang" :: i :: k :: r -> go (papply builtin p (POp (nat_of_int (int_of_string i), SetLanguage (Some (parse_str k))))) r
-        | "langnone" :: i :: r -> go (papply builtin p (POp (nat_of_int (int_of_string i), SetLanguage None))) r
+            go (papply create_detaches_config builtin p (POp (nat_of_int (int_of_string i), SetOverride (parse_str k, Some v)))) r'
+        | "ovrnone" :: i :: k :: r -> go (papply create_detaches_config builtin p (POp (nat_of_int (int_of_string i), SetOverride (parse_str k, None)))) r
+        | "lang" :: i :: k :: r -> go (papply create_detaches_config builtin p (POp (nat_of_int (int_of_string i), SetLanguage (Some (parse_str k))))) r
+        | "langnone" :: i :: r -> go (papply create_detaches_config builtin p (POp (nat_of_int (int_of_string i), SetLanguage None))) r
         | "create" :: i :: r ->
             let ii = int_of_string i in
-            (match nth_opt p ii with
+            (match nth_opt p.p_builders ii with
              | None -> Buffer.add_string out ("C " ^ i ^ " ERR ERR ; ")
              | Some b ->
-                 let (b', o) = bcreate_st b in
-                 Buffer.add_string out ("C " ^ i ^ " " ^ show_sections b'.b_sections ^ " "
+                 let ((b', cs), o) = bcreate_st create_detaches_config b in
+                 let shown = (match o, cs with Some _, Some s -> show_sections (Some s) | _, _ -> show_sections b'.b_sections) in
+                 Buffer.add_string out ("C " ^ i ^ " " ^ shown ^ " "
                                         ^ (match o with Some o -> show_cv (Node o) | None -> "ERR") ^ " ; "));
-            go (papply builtin p (PCreate (nat_of_int ii))) r
+            go (papply create_detaches_config builtin p (PCreate (nat_of_int ii))) r
         | t :: _ -> failwith ("op " ^ t) in
-      let p = go [] r1 in
+      let p = go empty_proc r1 in
       Buffer.add_string out "F";
-      List.iter (fun b -> Buffer.add_string out (" " ^ show_sections b.b_sections ^ " ;")) p;
+      List.iter (fun b -> Buffer.add_string out (" " ^ show_sections b.b_sections ^ " ;")) p.p_builders;
+      Buffer.add_string out " X";
+      List.iteri (fun c _ -> Buffer.add_string out (" " ^ (match ctx_report p (nat_of_int c) with Some s -> show_sections s | None -> "ERR") ^ " ;")) p.p_ctxs;
       print_string (Buffer.contents out ^ "\n")
   | "C" :: r ->
       let (builtin, r1) = parse_cv r in
@@ -110,8 +114,9 @@ let handle line =
            let al = args r3 in
            let arg k = try Some (List.assoc k al) with Not_found -> None in
            let b = List.fold_left bapply (new_builder builtin) (cli_ops arg files) in
-           let (b', o) = bcreate_st b in
-           print_string ("C 0 " ^ show_sections b'.b_sections ^ " " ^ (match o with Some o -> show_cv (Node o) | None -> "ERR") ^ " ; F\n")
+           let ((b', cs), o) = bcreate_st create_detaches_config b in
+           let shown = (match o, cs with Some _, Some s -> show_sections (Some s) | _, _ -> show_sections b'.b_sections) in
+           print_string ("C 0 " ^ shown ^ " " ^ (match o with Some o -> show_cv (Node o) | None -> "ERR") ^ " ; F X\n")
        | [] -> failwith "C: file count expected")
   | _ -> print_string "ERR request\n"
 
